@@ -20,6 +20,10 @@ pub struct PropInfo {
 pub fn info(prop: &str) -> PropInfo {
     match prop {
         "C01" => PropInfo { id: "C01", engine: "e1", rule: "seeded acyclic program + write/query history; distinct = distinct (program, history) hash; non-trivial = at least one request was served after a write that followed an earlier request (memo reuse/verification exercised) and the run executed >= 1 body" },
+        "C02" => PropInfo { id: "C02", engine: "e1", rule: "seeded acyclic program + history in which every write draws LOW/MEDIUM/HIGH/NEVER_CHANGE (or keeps) and synthetic writes of every durability occur; distinct = (program, history) hash; non-trivial = a request after a write after a request, at least two different durabilities written, >= 1 memo validated" },
+        "C03" => PropInfo { id: "C03", engine: "e1", rule: "seeded acyclic program + history without faults; every body execution is checked against the justification model; distinct = (program, history) hash; non-trivial = request after write after request and at least one re-execution was checked (justified) or a memo was validated" },
+        "C04" => PropInfo { id: "C04", engine: "e1", rule: "seeded programs with untracked reads of external cells + histories changing cells followed by a synthetic write of any durability; non-trivial = an untracked node was re-executed in a later revision" },
+        "C06" => PropInfo { id: "C06", engine: "e1", rule: "seeded programs whose makers create 0..k tracked structs conditionally with colliding idents; non-trivial = a maker re-executed and at least one struct identity was compared (kept) or a discard was expected" },
         _ => PropInfo { id: "C??", engine: "e1", rule: "" },
     }
 }
@@ -64,6 +68,66 @@ pub fn make_case(prop: &str, seed: u64, tier: Tier) -> Case {
                 class = "fault_free".into();
             }
         }
+        "C02" => {
+            // durability churn: many input reads behind input-controlled branches, every write draws a durability
+            g.kinds = vec![(Kind::Plain, 10), (Kind::NoEq, 2), (Kind::Multi, 2), (Kind::Mk, 2)];
+            g.ts_ops = r.pct(30);
+            g.on_ts = true;
+            g.nodes = (3, 9);
+            g.inputs = (2, 4);
+            g.m_choices = vec![2, 2, 3];
+            h.steps = (8, 36);
+            h.w_set = 45;
+            h.w_synth = 8;
+            h.w_burst = 2;
+            h.durs = vec![None, Some(Dur::Low), Some(Dur::Medium), Some(Dur::High), Some(Dur::Low), Some(Dur::Medium), Some(Dur::High)];
+            if r.pct(40) {
+                h.durs.push(Some(Dur::Never));
+                h.synth_durs.push(Dur::Never);
+                class = "with_never_change".into();
+            } else {
+                class = "churn".into();
+            }
+            knobs.fresh_every = if r.pct(20) { 5 } else { 0 };
+        }
+        "C03" => {
+            g.kinds = vec![(Kind::Plain, 10), (Kind::NoEq, 2), (Kind::Multi, 2), (Kind::Ref, 2), (Kind::Mk, 3), (Kind::Lru, 1)];
+            g.on_ts = true;
+            g.on_it = true;
+            g.zero = true;
+            g.ts_ops = r.pct(50);
+            g.intern_ops = r.pct(30);
+            g.untracked_ops = r.pct(20);
+            g.cells = (0, 1);
+            g.m_choices = vec![2, 2, 3, 4];
+            h.w_setext = 3;
+            h.w_burst = 2;
+            class = if g.ts_ops || g.intern_ops { "structs".into() } else { "core".into() };
+        }
+        "C04" => {
+            g.kinds = vec![(Kind::Plain, 10), (Kind::NoEq, 1), (Kind::Multi, 2), (Kind::Lru, 2), (Kind::Mk, 1)];
+            g.untracked_ops = true;
+            g.cells = (1, 3);
+            g.m_choices = vec![2, 2, 3];
+            g.ts_ops = r.pct(20);
+            h.w_setext = 25;
+            h.w_set = 12;
+            h.w_synth = 8;
+            h.w_triglru = 2;
+            h.w_setlru = 2;
+            class = "acyclic".into();
+        }
+        "C06" => {
+            g.kinds = vec![(Kind::Plain, 6), (Kind::Mk, 8), (Kind::Multi, 1)];
+            g.ts_ops = true;
+            g.on_ts = true;
+            g.mk_bias = 90;
+            g.m_choices = vec![2, 3, 4];
+            g.ops = (3, 10);
+            h.w_query = 55;
+            h.w_set = 35;
+            class = "structs".into();
+        }
         _ => panic!("unknown property {prop}"),
     }
     scale(tier, &mut g, &mut h);
@@ -76,7 +140,33 @@ pub fn make_case(prop: &str, seed: u64, tier: Tier) -> Case {
 /// Is this run non-trivial for its property (measured, per run)?
 pub fn nontrivial(case: &Case, out: &RunOut) -> bool {
     let st = |k: &str| out.stats.get(k).copied().unwrap_or(0);
+    let base = {
+        // a request after a write after a request
+        let mut phase = 0;
+        for s in &case.hist {
+            let is_q = matches!(s, Step::Query { .. } | Step::QueryMk { .. } | Step::CloneQueryDrop { .. } | Step::Accumulated { .. });
+            match phase {
+                0 if is_q => phase = 1,
+                1 if s.is_mut() => phase = 2,
+                2 if is_q => phase = 3,
+                _ => {}
+            }
+        }
+        phase == 3 && st("ev_will_execute") > 0
+    };
     match case.property.as_str() {
+        "C02" => {
+            let mut ds = std::collections::BTreeSet::new();
+            for s in &case.hist {
+                if let Step::SetIn { d: Some(d), .. } = s {
+                    ds.insert(*d);
+                }
+            }
+            base && ds.len() >= 2 && st("ev_did_validate_memo") > 0
+        }
+        "C03" => base && (st("reexec_justified") > 0 || st("ev_did_validate_memo") > 0),
+        "C04" => base && st("untracked_reexecuted_in_revision") > 0,
+        "C06" => base && (st("ts_identity_kept") > 0 || st("ts_discard_seen") > 0),
         _ => {
             // a request after a write after a request
             let mut phase = 0;
